@@ -1908,7 +1908,11 @@ class OALParser(object):
         '''instance_name : variable_name
                          | SELF
         '''
-        p[0] = p[1]
+        if p.slice[1].type == 'SELF':
+            # keywords are case-insensitive
+            p[0] = p[1].lower()
+        else:
+            p[0] = p[1]
         
     @track_production
     def p_identifier(self, p):
